@@ -34,7 +34,7 @@ def rand_node(rng: random.Random, depth: int, want_async: Optional[bool] = None)
         return {"kind": "plain", "async": is_async, "falsy": rng.random() < 0.2}
     if k == "gcm":
         nbody = rng.choice([0, 0, 1, 2]) if depth > 0 else 0
-        return {"kind": "gcm", "async": is_async, "yield_from": (not is_async) and rng.random() < 0.4,
+        return {"kind": "gcm", "async": is_async, "yield_from": (0 if is_async or rng.random() < 0.5 else rng.randint(1, 3)),
                 "body": [rand_node(rng, depth - 1, want_async=False) for _ in range(nbody)]}
     ops = []
     for _ in range(rng.randint(0, 5)):
@@ -75,11 +75,15 @@ class Builder:
         if k == "plain":
             falsy = node.get("falsy")
             if node["async"]:
+                block = node.get("block")
+
                 class APlain:
                     async def __aenter__(s):
                         return s
 
                     async def __aexit__(s, *a):
+                        if block:
+                            await trap()        # the holder is observed suspended here, while the stack is exiting
                         return False
 
                     def __bool__(s):
@@ -135,11 +139,16 @@ class Builder:
                     def inner():
                         with body[0], body[1]:
                             yield 1
-                if node.get("yield_from"):
-                    def gen():
-                        yield from inner()
-                else:
-                    gen = inner
+                gen = inner
+                for lvl in range(int(node.get("yield_from") or 0)):
+                    def mk(prev, lvl):
+                        def deleg():
+                            yield from prev()
+                        deleg.__name__ = "gen" if lvl == int(node["yield_from"]) - 1 else f"lvl{lvl}"
+                        deleg.__qualname__ = deleg.__name__
+                        deleg.__code__ = deleg.__code__.replace(co_name=deleg.__name__, co_qualname=deleg.__name__)
+                        return deleg
+                    gen = mk(gen, lvl)
                 m = contextlib.contextmanager(gen)()
             node["_tag"] = self.tag(m, "m")
             return m
@@ -204,7 +213,8 @@ def expected(node: dict, exiting_root: bool = False, entered: bool = True) -> tu
             inner = [(first, [])]
         else:
             body_ctxs = [expected(c) for c in node["body"]]
-            frames = ["gen", "inner"] if node.get("yield_from") else ["inner" if not node["async"] else "agen"]
+            yf = int(node.get("yield_from") or 0)
+            frames = (["gen"] + [f"lvl{i}" for i in range(yf - 2, -1, -1)] + ["inner"]) if yf else ["inner" if not node["async"] else "agen"]
             inner = [(fn, body_ctxs if i == len(frames) - 1 else []) for i, fn in enumerate(frames)]
         return ("C", node["_tag"], node["async"], inner, [])
     kids = []
@@ -249,8 +259,8 @@ class C09(PropCheck):
     real_time_limit = 30.0
     rule = ("trees of depth <= 3 (quick) / <= 5 (thorough): plain managers (sync/async, some falsy), generator-based managers "
             "(sync/async, with or without yield from, 0-2 managers in their body), ExitStack / AsyncExitStack with 0-5 random "
-            "registration calls out of the eight; observed suspended in the body and (async generator-based roots) while "
-            "exiting; non-trivial = the tree has an exit stack with children or a generator-based manager with a body")
+            "registration calls out of the eight; observed suspended in the body, (async generator-based roots) while "
+            "exiting, and (async exit stacks) while the stack is exiting with earlier registrations still pending; non-trivial = the tree has an exit stack with children or a generator-based manager with a body")
     manifest = {
         "text": "Lean: C09_children (for any sequence of the eight registration calls, the exit stack's context gets exactly one child per callback, in registration order, identifying the manager or callable, its sync/async kind, the method and the position — classify ∘ register = specOf), C09_one_child_per_callback, C09_order, C09_kind, C09_manager_is_obj (whatever the manager's truthiness: the repaired F10), C09_exiting (the generator-based glue sets inner_stack exactly when the manager is not exiting). Tie: real ExitStack / AsyncExitStack children vs the model; the full nested tree (inner stacks, their frames' contexts, children of children) is compared with a Python unfolding of the generated tree description on every run.",
         "note": "What contextlib stores in _exit_callbacks for each registration method is CPython behaviour: assumed by the model (register), exercised by every stack in the corpus. The recursive unfolding of the whole tree is checked by the oracle, not proved.",
@@ -266,6 +276,12 @@ class C09(PropCheck):
             if node["kind"] == "gcm" and node["async"] and rng.random() < 0.5:
                 node["exiting"] = True
                 node["exit_by"] = rng.choice(["fallthrough", "exception"])
+            if node["kind"] == "stack" and node["async"] and rng.random() < 0.5:
+                # observed while the stack itself is exiting: suspended in the cleanup of the last registration, the earlier
+                # ones still pending
+                node["ops"].append(["enter_async_context", {"kind": "plain", "async": True, "falsy": False, "block": True}])
+                node["stack_exiting"] = True
+                node["exit_by"] = rng.choice(["fallthrough", "exception"])
             out.append({"k": "tree", "node": node})
         return out
 
@@ -276,11 +292,12 @@ class C09(PropCheck):
         b = Builder()
         root = b.build(node)
         exiting = node.get("exiting", False)
+        stack_exiting = node.get("stack_exiting", False)
 
         if node["async"]:
             async def holder():
                 async with root as st:
-                    if not exiting:
+                    if not (exiting or stack_exiting):
                         await trap()
                     elif node.get("exit_by") == "exception":
                         raise KeyError("leaving the block by exception")
@@ -303,9 +320,11 @@ class C09(PropCheck):
                 return "?"
             ctx = f0.contexts[0]
             got = observe_ctx(ctx, b.ids)
+            if stack_exiting:
+                node["ops"] = node["ops"][:-1]          # the blocker has been popped: every earlier registration is still pending
             want = expected(node, exiting_root=exiting)
-            if ctx.is_exiting != exiting:
-                probs.append(f"is_exiting={ctx.is_exiting}, expected {exiting}")
+            if ctx.is_exiting != (exiting or stack_exiting):
+                probs.append(f"is_exiting={ctx.is_exiting}, expected {exiting or stack_exiting}")
             if got != want:
                 probs.append(f"context tree differs from the unfolding of the registered managers: observed {got} expected {want}")
             if exiting:
